@@ -5,7 +5,10 @@ from . import tables as T
 
 
 def canon_codec(name):
-    return codecs.lookup(name).name
+    try:
+        return codecs.lookup(name).name
+    except LookupError:
+        return 'unknown:' + str(name).lower()
 
 
 def expected_bytes(content, mode=None, encoding=None):
